@@ -64,7 +64,9 @@ ENCODINGS = [('utf-8', '', False), ('utf-8', '', True), ('latin-1', '# -*- codin
              ('shift_jis', '# coding=shift_jis', False), ('utf-8', '# coding: utf-8', False), ('utf-8', '# coding: utf-8', True),
              ('latin-1', '# coding: latin-1', True)]        # the last one contradicts its BOM: the interpreter rejects it
 NEWLINES = ['\n', '\r\n', '\r', 'mixed', 'nofinal']
-SHEBANGS = [None, '#!/usr/bin/env python', '#!/usr/bin/env python  \t', '#!/usr/bin/\u00e9nv python', '#!', '#! /bin/sh -x']
+SHEBANGS = [None, '#!/usr/bin/env python', '#!/usr/bin/env python  \t', '#!/usr/bin/\u00e9nv python', '#!', '#! /bin/sh -x',
+            # characters that str.splitlines() treats as line boundaries but the interpreter does not
+            '#!/bin/sh\x0cformfeed', '#!/bin/sh\x0bvtab', '#!/bin/sh\x1cfs\x1dgs\x1ers', '#!/bin/sh\x85nel', '#!/bin/sh\u2028ls\u2029ps']
 
 
 def render(prog, enc, cookie, bom, nl, shebang):
